@@ -139,6 +139,7 @@ type Term struct {
 	umOK     bool
 	ones     uint64
 	onesOK   bool
+	sh       uint64
 }
 
 var idCtr uint64
@@ -290,6 +291,43 @@ func structEq(a, b *Term, depth int) bool {
 		}
 	}
 	return true
+}
+
+// StructHash is a structural hash (equal for structurally equal terms).
+func StructHash(t *Term) uint64 {
+	if t.sh != 0 {
+		return t.sh
+	}
+	h := uint64(1469598103934665603)
+	mix := func(x uint64) {
+		h ^= x
+		h *= 1099511628211
+	}
+	mix(uint64(t.Op) + 1)
+	mix(uint64(t.Sort.K)<<8 | uint64(t.Sort.W))
+	mix(t.Val)
+	mix(uint64(t.P1)<<16 | uint64(t.P2))
+	for i := 0; i < len(t.Name); i++ {
+		mix(uint64(t.Name[i]))
+	}
+	if t.Big != nil {
+		for _, w := range t.Big.Bits() {
+			mix(uint64(w))
+		}
+	}
+	for _, v := range t.Tab {
+		mix(v)
+	}
+	for _, a := range t.Args {
+		mix(StructHash(a))
+	}
+	if h == 0 {
+		h = 1
+	}
+	if t.Op != OConst {
+		t.sh = h
+	}
+	return h
 }
 
 // Same reports syntactic identity (pointer or equal constants).
@@ -948,6 +986,12 @@ func BvBin(op Op, a, b *Term) *Term {
 			if a == b {
 				return a
 			}
+			if oky && Ones(a)&y == KnownOnes(a)&y {
+				return BVC(w, KnownOnes(a)&y)
+			}
+			if okx && Ones(b)&x == KnownOnes(b)&x {
+				return BVC(w, KnownOnes(b)&x)
+			}
 			// zext(x) & c where c covers x's width
 			if oky && a.Op == OZext {
 				iw := a.Args[0].Sort.W
@@ -1096,6 +1140,42 @@ func onesOf(t *Term) uint64 {
 		}
 	}
 	return mask(w)
+}
+
+// KnownOnes returns a mask of bits that are certainly 1 (width <= 64).
+func KnownOnes(t *Term) uint64 { return knownOnes(t, 24) }
+
+func knownOnes(t *Term, depth int) uint64 {
+	if t.Sort.W > 64 {
+		return 0
+	}
+	if t.Op == OConst {
+		return t.Val
+	}
+	if depth == 0 {
+		return 0
+	}
+	switch t.Op {
+	case OZext:
+		return knownOnes(t.Args[0], depth-1)
+	case OConcat:
+		return knownOnes(t.Args[0], depth-1)<<uint(t.Args[1].Sort.W) | knownOnes(t.Args[1], depth-1)
+	case OExtract:
+		if t.Args[0].Sort.W <= 64 {
+			return (knownOnes(t.Args[0], depth-1) >> uint(t.P2)) & mask(t.Sort.W)
+		}
+	case OBvOr:
+		return knownOnes(t.Args[0], depth-1) | knownOnes(t.Args[1], depth-1)
+	case OBvAnd:
+		return knownOnes(t.Args[0], depth-1) & knownOnes(t.Args[1], depth-1)
+	case OBvXor:
+		if Ones(t.Args[0])&Ones(t.Args[1]) == 0 {
+			return knownOnes(t.Args[0], depth-1) | knownOnes(t.Args[1], depth-1)
+		}
+	case OIte:
+		return knownOnes(t.Args[1], depth-1) & knownOnes(t.Args[2], depth-1)
+	}
+	return 0
 }
 
 // UMax returns a cheap upper bound on the unsigned value of a BV term (<=64 bits).
@@ -1336,6 +1416,16 @@ func Extract(a *Term, hi, lo int) *Term {
 	case OIte:
 		if a.Args[1].IsConst() && a.Args[2].IsConst() {
 			return Ite(a.Args[0], Extract(a.Args[1], hi, lo), Extract(a.Args[2], hi, lo))
+		}
+	case OBvXor, OBvOr:
+		if a.Sort.W <= 64 {
+			rng := (mask(hi+1) >> uint(lo)) << uint(lo)
+			if Ones(a.Args[1])&rng == 0 {
+				return Extract(a.Args[0], hi, lo)
+			}
+			if Ones(a.Args[0])&rng == 0 {
+				return Extract(a.Args[1], hi, lo)
+			}
 		}
 	}
 	t := mk(OExtract, BV(w), a)
